@@ -50,10 +50,21 @@ def handle (op : String) (j : Json) : Option (R Json) :=
       | .error e => pure (errJ e)
       | .ok r => pure (okJ (arrJ r))
   | "window3" => some do
-      let a ← intCube j; let t ← getInts j "to"
-      match window3Shape a t[0]! t[1]! with
-      | .error e => pure (errJ e)
-      | .ok r => pure (okJ (cubeJ r))
+      let a ← intCube j
+      match optVal j "slice" with
+      | some (.arr v) => do
+        let t ← v.mapM (·.getInt?)
+        let sh ← match optVal j "to" with
+          | some (.arr w) => do let u ← w.mapM (·.getInt?); pure (some (u[0]!, u[1]!))
+          | _ => pure none
+        match window3 a sh (some (t[0]!, t[1]!, t[2]!, t[3]!)) with
+        | .error e => pure (errJ e)
+        | .ok r => pure (okJ (cubeJ r))
+      | _ => do
+        let t ← getInts j "to"
+        match window3Shape a t[0]! t[1]! with
+        | .error e => pure (errJ e)
+        | .ok r => pure (okJ (cubeJ r))
   | "subarray" => some do
       let a ← intArr j; let s ← getInts j "sub"; let o ← getInts j "shift"
       match subarray a s[0]! s[1]! o[0]! o[1]! with
